@@ -122,12 +122,14 @@ def _weave_states_in_region(
                 # handle accfg.setup ops:
                 if isinstance(op, accfg.SetupOp):
                     accel = op.accelerator.data
-                    if accel in state and op.in_state != state[accel]:
+                    # the setup must be linked to the state that really precedes it - or to nothing if that state is
+                    # unknown here (a pre-existing link may be stale, e.g. across a call that invalidated the state)
+                    if op.in_state != state.get(accel):
                         new_op = accfg.SetupOp(
                             op.values,
                             op.param_names,
                             op.accelerator,
-                            state[accel],
+                            state.get(accel),
                         )
                         rewriter.replace_op(op, new_op)
                         op = new_op
